@@ -311,16 +311,74 @@ Definition fpost_ok (o : op) (ca cd : list N * list N) (prev ob : obs) : bool :=
   | _ => post_ok o prev ob
   end.
 
-Fixpoint fspec_steps (dm : dims) (ca cd : list N * list N) (prev : obs) (steps : list (op * obs)) : bool :=
+(* Round 4: status per (name, device) on the observations.  optrack_awg / optrack_dac are Spec.ptrack_awg / ptrack_dac read
+   off the observations before / after the call (Proofs_post.optrack_awg_view / optrack_dac_view).  perdev_obs_awg /
+   perdev_obs_dac: for every name that is not lost and every device of the bench at which it is not dirty, the routing
+   clauses of the name at that device (Proofs_dev.clean_at / Proofs_perdev_dac.dclean_at, proved for every history:
+   Props.C18_clean_at_histories / C18_dclean_at_histories) - also for a COVERED name, about which the per-name check says
+   nothing but "copies exactly on the recorded devices". *)
+Definition optrack_awg (o : op) (prev ob : obs) (dl : list (N * N)) : list (N * N) :=
+  match o with
+  | OSetChannel id _ _ | ORmChannel id =>
+      flat_map (fun n => map (fun a => (n, a)) (changed_gens id (o_chmap prev) (o_chmap ob))) (users_ch (o_regs prev) id) ++ dl
+  | ORegister name _ _ _ _ => match o_err ob with None => filter (fun q => negb (N.eqb (fst q) name)) dl | Some _ => dl end
+  | ORemove name => filter (fun q => negb (N.eqb (fst q) name)) dl
+  | OClear => []
+  | _ => dl
+  end.
+
+Definition optrack_dac (o : op) (prev ob : obs) (dl : list (N * N)) : list (N * N) :=
+  match o with
+  | OSetMeasurement nm _ _ =>
+      flat_map (fun n => map (fun d => (n, d)) (changed_dacs nm (o_mmap prev) (o_mmap ob))) (users_meas (o_regs prev) nm) ++ dl
+  | ORegister name _ _ _ _ => match o_err ob with None => filter (fun q => negb (N.eqb (fst q) name)) dl | Some _ => dl end
+  | ORemove name => filter (fun q => negb (N.eqb (fst q) name)) dl
+  | OClear => []
+  | _ => dl
+  end.
+
+Definition perdev_obs_awg (dm : dims) (ca : list N * list N) (dl : list (N * N)) (ob : obs) : bool :=
+  let cm := o_chmap ob in let rg := o_regs ob in
+  forall_idx (fun a ast =>
+       forallb (fun ne => is_lost ca (fst ne) || memNN (fst ne, a) dl
+                          || match lookup (fst ne) rg with
+                             | Some r => uses_awg cm (r_chans r) a && entry_ok dm cm (r_tag r) (r_chans r) a (snd ne)
+                             | None => false
+                             end) (a_progs ast)
+       && forallb (fun nr => is_lost ca (fst nr) || memNN (fst nr, a) dl
+                             || (negb (uses_awg cm (r_chans (snd nr)) a) || has_key (fst nr) (a_progs ast))
+                                && Bool.eqb (memN a (r_awgs (snd nr))) (uses_awg cm (r_chans (snd nr)) a)) rg)
+     0%N (o_awgs ob).
+
+Definition perdev_obs_dac (cd : list N * list N) (dl : list (N * N)) (ob : obs) : bool :=
+  let mm := o_mmap ob in let rg := o_regs ob in
+  forall_idx (fun d dst =>
+       forallb (fun nw => is_lost cd (fst nw) || memNN (fst nw, d) dl
+                          || match lookup (fst nw) rg with
+                             | Some r => uses_dac mm (r_meas r) d && dac_entry_ok mm (r_meas r) d (snd nw)
+                             | None => false
+                             end) (d_wins dst)
+       && forallb (fun nr => is_lost cd (fst nr) || memNN (fst nr, d) dl
+                             || (negb (uses_dac mm (r_meas (snd nr)) d) || has_key (fst nr) (d_wins dst))
+                                && Bool.eqb (memN d (r_dacs (snd nr))) (uses_dac mm (r_meas (snd nr)) d)) rg)
+     0%N (o_dacs ob).
+
+Fixpoint fspec_steps (dm : dims) (ca cd : list N * list N) (da dd : list (N * N)) (prev : obs) (steps : list (op * obs))
+  : bool :=
   match steps with
   | [] => true
   | (o, ob) :: rest =>
       let ca' := otrack_awg o prev ob ca in
       let cd' := otrack_dac o prev ob cd in
+      let da' := optrack_awg o prev ob da in
+      let dd' := optrack_dac o prev ob dd in
       match o_err ob with
-      | Some _ => framed_obs_awg dm ca' ob && framed_obs_dac cd' ob && fspec_steps dm ca' cd' ob rest
+      | Some _ => framed_obs_awg dm ca' ob && framed_obs_dac cd' ob
+                  && perdev_obs_awg dm ca' da' ob && perdev_obs_dac cd' dd' ob
+                  && fspec_steps dm ca' cd' da' dd' ob rest
       | None => fpost_ok o ca' cd' prev ob && logs_ok o prev ob && framed_obs_awg dm ca' ob && framed_obs_dac cd' ob
-                && fspec_steps dm ca' cd' ob rest
+                && perdev_obs_awg dm ca' da' ob && perdev_obs_dac cd' dd' ob
+                && fspec_steps dm ca' cd' da' dd' ob rest
       end
   end.
 
@@ -328,7 +386,8 @@ Fixpoint fspec_steps (dm : dims) (ca cd : list N * list N) (prev : obs) (steps :
    A case that fails check_plain but passes check_framed is an instance of known finding C18-rewire-stale. *)
 Definition check_framed (c : case) : bool :=
   match c with
-  | CHist dl nd steps => fspec_steps (dims_of dl) ([], []) ([], []) (view (length dl) nd None init_state) steps
+  | CHist dl nd steps =>
+      fspec_steps (dims_of dl) ([], []) ([], []) [] [] (view (length dl) nd None init_state) steps
   | CCrash => false
   end.
 
